@@ -188,6 +188,31 @@ pub struct Log {
     pub events: Vec<Event>,
     /// (thread, how it ended)
     pub thread_ends: Vec<(u8, OpResult)>,
+    /// construction / clone / drop events of instrumented values
+    #[serde(default)]
+    pub track: Vec<crate::values::TrackEv>,
+    #[serde(default)]
+    pub lend: Vec<LendEv>,
+}
+
+#[derive(Clone, Debug, Serialize, Deserialize)]
+pub enum LendWhat {
+    Taken { val: u32, kind: LendKind, addr: u64 },
+    /// something read through a held reference was not what was lent
+    Bad { val: u32, what: String },
+    MakeMutStart { val: u32 },
+    MakeMutEnd { val: u32 },
+    SessionStart { exclusive: bool },
+    SessionEnd { held: u32 },
+    Checked { n: u32 },
+}
+
+#[derive(Clone, Debug, Serialize, Deserialize)]
+pub struct LendEv {
+    pub step: u64,
+    pub thread: u8,
+    pub slot: u8,
+    pub what: LendWhat,
 }
 
 pub struct RunCtx {
@@ -200,6 +225,7 @@ pub struct RunCtx {
     pub record_matchers: bool,
     pub slots: Vec<Mutex<Option<Arc<unimock::Unimock>>>>,
     pub slot_mock: Vec<AtomicU64>,
+    pub tracker: Arc<crate::values::Tracker>,
 }
 
 impl RunCtx {
@@ -221,6 +247,8 @@ pub struct ThreadCtx {
     pub cur_fault: Option<Fault>,
     pub progs_in_op: u8,
     pub cur_mock: u8,
+    /// id for the next tracked value created by user code on this thread
+    pub cur_val: u32,
 }
 
 thread_local! {
@@ -334,6 +362,7 @@ pub fn do_call(m: M, x: u8, y: u8, port: Port) -> u64 {
 
 /// A user program (answer function, real function, default body).
 pub fn run_prog(kind: ProgKind, x: u8, y: u8, port: Port) -> u64 {
+    crate::sched::user_yield();
     let (run, inv, prog, fault_pos, depth) = with_tl(|t| {
         let run = t.run.clone();
         let inv = run.inv.fetch_add(1, Ordering::SeqCst);
@@ -424,6 +453,7 @@ pub fn run_prog(kind: ProgKind, x: u8, y: u8, port: Port) -> u64 {
 
 /// Matcher body shared by all patterns.
 pub fn matcher_body(uid: u16, pred: u32, idx: u32) -> bool {
+    crate::sched::user_yield();
     let accepted = (pred >> idx) & 1 == 1;
     let fault = try_with_tl(|t| {
         if t.run.record_matchers {
